@@ -14,6 +14,7 @@ import tracer_common as tc
 S9 = 'S9-stale-er-size-after-packet-switch'
 S18 = 'S18-smaller-buffer-installed-during-packet-switch'
 S9B = 'S9b-discarded-although-it-fits-an-empty-packet'
+S12 = 'S12-record-size-wraps-modulo-2^32'
 
 PARAMS = {
     # pid: quick (ncfg, nh), thorough (ncfg, nh), history kwargs, cfg kwargs
@@ -49,7 +50,14 @@ def run_one_config(args):
         e = rng.choice(tc.sorted_erts(s))
         if e['p'] is not None and all(n != 'zz_wide' for n, _ in e['p']['members']):
             e['p']['members'].append(('zz_wide', ('int', False, rng.choice([8, 32, 64]), rng.choice([128, 256, 512]))))
-    hists = [tc.rand_history(rng, cfg, s, rng.choice(P['lens']), rng.choice(P['extra']), **P['h']) for _ in range(nh)]
+    hists = []
+    for k in range(nh):
+        hk = dict(P['h'])
+        if pid in ('C03', 'C04') and k % 2 == 0:
+            # the decode / discard-snapshot oracles need histories in which "tracing enabled at call entry" is known from
+            # the log alone: every other history has no tracing toggle (neither between nor inside calls)
+            hk['p_toggle'] = 0.0
+        hists.append(tc.rand_history(rng, cfg, s, rng.choice(P['lens']), rng.choice(P['extra']), **hk))
     if pid in ('C02', 'C03'):
         # directed histories: a packet switch which changes the size of the record being written
         for k in range(2):
@@ -68,6 +76,8 @@ def run_one_config(args):
             res['probes'], res['probe_error'] = tc.probe_sizes(cfg, s, d, rng)
             res['rprobes'], res['rprobe_error'] = tc.probe_reserve(d, rng)
             res['sprobes'], res['sprobe_error'] = tc.probe_switch(cfg, s, d, rng)
+        if pid == 'C02':
+            res['wprobes'], res['wprobe_error'] = tc.probe_sizes32(cfg, s, d, rng)
         if pid == 'C16' and STORE_PROBE_OK:
             spexe, sperr = tc.build_store_probe(d)
             res['store_probe'] = tc.run_store_probe(spexe, len(hists)) if spexe else None
@@ -448,6 +458,26 @@ def oracle_packets(ctx, r, hi, stats):
             ctx.violation('C04: malformed packet #%d handed to the back end: %s' % (k, why), dict(rep, packet_index=k, packet_bytes=raw[k]))
             return
         k += 1
+    # discarded snapshot against the CALLS (not against the tracer's own counter): when the platform closes a packet
+    # between two tracing calls, every earlier tracing call made while tracing was enabled has either its record in
+    # the packets handed over so far or was discarded
+    if pf['disc'] and not has_toggles(h) and all(p is not None for p in pk):
+        k, n_en = 0, 0
+        for call, evs, before, after in walk_calls(h, events):
+            nh = sum(1 for x in evs if x[0] == 2)
+            if call[0] == 'trace':
+                if before is None or before[9] == 1:
+                    n_en += 1
+            elif nh == 1 and call[0] in ('close', 'fini'):
+                nrec = sum(len(p['recs']) for p in pk[:k + 1])
+                want = n_en - nrec
+                stats['discard_snapshots_checked_against_calls'] += 1
+                if want >= 0 and pk[k]['pc']['events_discarded'] != field_mod(pf['disc'], want):
+                    ctx.violation('C04: packet #%d (closed by the platform between two tracing calls) states %d discarded event records: %d tracing '
+                                  'calls were made with tracing enabled and %d records are in the packets handed over so far, so %d were discarded' % (
+                                      k, pk[k]['pc']['events_discarded'], n_en, nrec, want), dict(rep, packet_index=k, packet_bytes=raw[k]))
+                    return
+            k += nh
 
 
 def oracle_time(ctx, r, hi, stats):
@@ -739,6 +769,27 @@ def campaign(ctx, pid):
                             ctx.violation('%s: _reserve_er_space decides (return %d, callbacks %r, discards %d, position %d) where the record of %d bits at '
                                           'position %d of a %d-bit packet requires (return %d, callbacks %r, discards %d, position %d)' % (
                                               pid, iret, icb, idisc, iat, pr['er_size'], pr['at'], pr['packet_size'], eret, ecb, edisc, eat), rep)
+        if pid == 'C02':
+            if r.get('wprobes') is None:
+                ctx.corr_broken.append('config seed %d: %s' % (r['seed'], r.get('wprobe_error')))
+            else:
+                for pr in r['wprobes']:
+                    stats['wrap32_size_probes'] += 1
+                    stats['wrap32_size_probes_that_wrap'] += 1 if pr['at'] + pr['true_size_bits'] >= 2 ** 32 else 0
+                    if pr['impl'] == pr['model32']:
+                        continue
+                    stats['wrap32_size_probe_mismatches'] += 1
+                    if stats['wrap32_size_probe_mismatches'] <= 3:
+                        rep = {'config_seed': r['seed'], 'config': cfg_repr(cfg), 'stream': s['name'], 'event_record_type_index': pr['ert'],
+                               'position_bits': pr['at'], 'argument_values': pr['vals'], 'size_function_returns': pr['impl'],
+                               'model_er_size32': pr['model32'], 'bits_occupied_unbounded': pr['true_size_bits']}
+                        if pr['impl'] < pr['true_size_bits'] and pr['model32'] == pr['true_size_bits'] % 2 ** 32 \
+                                and pr['at'] + pr['true_size_bits'] < 2 ** 32:
+                            ctx.violation('C02: the generated size function returns %d bits for a record that occupies %d bits when serialized '
+                                          'from bit %d' % (pr['impl'], pr['true_size_bits'], pr['at']), rep)
+                        else:
+                            ctx.corr_broken.append('uint32 size pass (Layout/Wrap32.v size_op32) differs from the real _er_size function at '
+                                                   'position %d: real %d, model %d (config seed %d)' % (pr['at'], pr['impl'], pr['model32'], r['seed']))
         if pid in ('C02', 'C03'):
             if r.get('sprobes') is None:
                 ctx.corr_broken.append('config seed %d: %s' % (r['seed'], r.get('sprobe_error')))
@@ -850,6 +901,24 @@ def campaign(ctx, pid):
         for r in results:
             if not r['error']:
                 oracle_atomic(ctx, r, stats)
+    s12 = None
+    if pid == 'C02':
+        # S12 on the real tracer: the witness of Props/C02.v C02_refuted_uint32_wrap (a dynamic array of 2^29 uint8
+        # elements, 2^32 + 40 bits, traced into a 256-byte packet: the uint32 size pass returns 40, the reservation
+        # succeeds, the serializer goes on past the buffer)
+        s12 = tc.demo_s12(ctx.scratch)
+        stats['s12_uint32_wrap_demonstrations'] += 1
+        if s12.get('error'):
+            ctx.notes.append('S12 demonstration did not run: %s' % s12['error'])
+        elif s12.get('sanitizer') or s12.get('bytes_after_buffer_untouched') is False:
+            ctx.finding(S12, 'a record of 2^32 + 40 bits (dynamic array of 2^29 uint8 elements) traced into a 256-byte packet is not discarded: '
+                        'the uint32_t size pass wraps to 40 bits, _reserve_er_space accepts it and the serializer writes past the buffer (%s in %s)' % (
+                            s12.get('sanitizer', 'bytes after the buffer overwritten'), s12.get('where', '?')),
+                        dict(s12, configuration=tc.S12_CONFIG, call='barectf_ds_trace_ev(&ctx, 536870912, arr) after init + open_packet, 256-byte buffer',
+                             model_witness='Props/C02.v C02_refuted_uint32_wrap'))
+        elif s12.get('discarded') != 1:
+            ctx.violation('C02/S12: a record of 2^32 + 40 bits traced into a 256-byte packet: expected one discard, got %r' % (s12,),
+                          dict(s12, configuration=tc.S12_CONFIG))
     distinct = len({repr((cfg_repr(r['cfg']), h['calls'], h['oracle'][:20], h['buf'])) for r in results if not r['error'] for h in r['hists']})
     ctx.cov.update({
         'evaluations': stats['histories'],
